@@ -110,6 +110,7 @@ class Translator:
         self.cur_lines = None
         self.cur_outputs = None
         self.widenings = []        # spellings accepted beyond the literal grammar (evidence)
+        self.inplace_log = []      # (name, buffer) of every in-place write translated so far
 
     # ------------------------------------------------------------ helpers
     def err(self, node, msg):
@@ -648,7 +649,20 @@ class Translator:
         else:
             self.local_names = self.local_names | self.stored_names(fdef)
         try:
+            mark = len(self.inplace_log)
             ret = self.block(fdef.body, env2, self.cur_lines, self.cur_outputs)
+            # an in-place write inside the helper on a buffer the caller can see: the caller's
+            # name for that buffer now denotes the written array (exactly one such name, same
+            # kind; anything else is not in the grammar)
+            for nm, b in self.inplace_log[mark:]:
+                seen = [a_ for a_, v_ in env.items() if v_.buf is not None and v_.buf == b]
+                if not seen:
+                    continue
+                new = env2.get(nm)
+                if len(seen) != 1 or new is None or new.kind != env[seen[0]].kind or new.buf != b:
+                    self.err(node, 'helper writes in place into an array the caller sees through several names')
+                old = env[seen[0]]
+                env[seen[0]] = Val(new.text, old.kind, old.origin, buf=b)
             if ret is None or ret.value is None:
                 if how == 'method':
                     return Val('', 'none')
@@ -728,6 +742,7 @@ class Translator:
             self.err(st, 'in-place: batch index')
         rhs = self.expr(st.value, env)
         self.note_mutation(base.origin)
+        self.inplace_log.append((nm, base.buf))
         for n2, v2 in env.items():
             if n2 != nm and v2.buf is not None and v2.buf == base.buf:
                 v2.stale = True
@@ -743,6 +758,18 @@ class Translator:
                 self.err(st, 'in-place rhs kind')
             return nm, Val(f'(set_col {self.int_of(idx[2])} {base.text} {rhs.text})', 'm', base.origin, buf=base.buf)
         self.err(st, 'in-place form not in the grammar')
+
+    def aug_to_assign(self, st):
+        """x[...] op= e  ->  x[...] = x[...] op e"""
+        import copy
+        load = copy.deepcopy(st.target)
+        for n_ in ast.walk(load):
+            if isinstance(n_, (ast.Subscript, ast.Name)) and isinstance(n_.ctx, ast.Store):
+                n_.ctx = ast.Load()
+        self.widen('augmented assignment')
+        return ast.copy_location(ast.Assign(
+            targets=[st.target],
+            value=ast.copy_location(ast.BinOp(left=load, op=st.op, right=st.value), st)), st)
 
     def bind(self, lines, env, name, val):
         """emit `let name := val in` and update env"""
@@ -772,15 +799,7 @@ class Translator:
                 continue
             # x[...] op= e  ==  x[...] = x[...] op e (same buffer) ; x op= e writes x's buffer
             if isinstance(st, ast.AugAssign) and isinstance(st.target, (ast.Subscript, ast.Name)):
-                import copy
-                load = copy.deepcopy(st.target)
-                for n_ in ast.walk(load):
-                    if isinstance(n_, (ast.Subscript, ast.Name)) and isinstance(n_.ctx, ast.Store):
-                        n_.ctx = ast.Load()
-                new = ast.copy_location(ast.Assign(
-                    targets=[st.target],
-                    value=ast.copy_location(ast.BinOp(left=load, op=st.op, right=st.value), st)), st)
-                self.widen('augmented assignment')
+                new = self.aug_to_assign(st)
                 if isinstance(st.target, ast.Name):
                     nm = st.target.id
                     if nm not in env or env[nm].kind not in 'vm':
@@ -861,6 +880,8 @@ class Translator:
                             env2[x_] = Val(v_.text, v_.kind, v_.origin, buf=v_.buf)
                             self.integer_guards.append(f'{self.cur}:{x_}')
                             continue
+                    if isinstance(s2, ast.AugAssign) and isinstance(s2.target, ast.Subscript):
+                        s2 = self.aug_to_assign(s2)
                     if not (isinstance(s2, ast.Assign) and len(s2.targets) == 1 and
                             isinstance(s2.targets[0], ast.Subscript)):
                         self.err(s2, 'only in-place updates are allowed under `if flag`')
